@@ -38,6 +38,7 @@ RULE = (
     "position bucket); non-trivial = at least one split executed with >= 1 bilateral constraint, force law or contact"
 )
 RULE += " Before a rod session the process deep-copies a rod of another interpolation made with the same factory options."
+RULE += " In a third of the sessions the working copy is first re-initialised with a wrong row (the next instant's state) and then again, for the same time, with the right one."
 RULE += " Third copy variant: the copy is taken from the system that has just finished the whole uninterrupted run. Time origins are arbitrary (t0 != 0, splits exactly at t = 0.0 with dyadic steps). Sessions with a Cosserat rod (its coordinates, internal constraints and end joints are re-initialised) and with a user-defined nonholonomic constraint."
 COMPONENTS = {
     "real": ["System.deepcopy / set_new_initial_state / assemble", "all five solvers", "joints, force laws, contacts", "save_solution / load_solution (real files)"],
@@ -121,6 +122,7 @@ def gen(rng, tier, index):
         "copy": str(rng.choice(["before", "after", "after_full"])),
         "durable": str(rng.choice(["memory", "file"])),
         "probe_seed": int(rng.integers(2**31)),
+        "reinit_twice": bool((index // len(SOLVERS)) % 3 == 1),
     }
 
 
@@ -343,6 +345,14 @@ def execute(plan, out, log):
                 kw = {"options": SolverOptions(compute_consistent_initial_conditions=False)} if needs_relaxed else {}
                 classes = "+".join(sorted({type(c).__name__ for c in copy_sys.contributions if type(c).__name__ not in ("Frame", "Force")}))
                 rejected = None
+                if plan.get("reinit_twice") and len(sol1.t) > k + 1:
+                    # the user first picks the wrong row of the solution (the next instant's state, declared at t_k), notices
+                    # and re-initialises the same working copy again for the same time with the right one
+                    try:
+                        copy_sys.set_new_initial_state(np.array(sol1.q[k + 1]), np.array(sol1.u[k + 1]), t0=tk, **kw)
+                        out["probes"]["reinitialised_twice_for_the_same_time"] += 1
+                    except Exception:
+                        out["probes"]["first_reinitialisation_rejected"] += 1
                 try:
                     copy_sys.set_new_initial_state(qk, uk, t0=tk, **kw)
                 except AssertionError as e:
